@@ -170,11 +170,14 @@ static int check_inv(ssl_t *s, int rc, int fed)
 
 /* ------------------------------------------------------------------ stack painting (differential for uninitialised reads)
    C08_PAINT=<hex byte> in the environment: the unused stack below the current frame is filled with that byte before
-   every API call and - through link-time wrappers of functions the parsers call between their own sub-parsers
+   every API call, before every record decode (wrapper of matrixSslDecode: also the second record of one receive call
+   starts on a painted stack) and - through link-time wrappers of functions the parsers call between their own sub-parsers
    (psParseBufFromStaticData, psParseTlsVariableLengthVec, psParseBufCopyN, sslUpdateHSHash, tls13TranscriptHashUpdate) -
    in the middle of a call (after the wrapped function returned, i.e. when the stack below the parser is free again), so that a local the library forgot to initialise holds the paint instead of what an earlier
    callee left there.  The same case run with two paints must give the same observables.  (Heap: ASAN_OPTIONS
-   malloc_fill_byte, set by the check.)  In this mode `x` results carry every observable:
+   malloc_fill_byte, set by the check.)  C08_PAINT=none: nothing is painted (the stack stays as the previous call left it:
+   the run that shows a value which is only right because an earlier call left it in the same slot) but the result lines
+   have the same format.  `u paint` is the positive control.  In this mode `x` results carry every observable:
    " err=<ssl->err> out=<n>:<fnv of bytes sent + queued> pt=<n>:<fnv of delivered plaintext> sni=<hex> alpn=<hex>" */
 static int g_paint = -1, g_obs = 0;   /* C08_PAINT=<hex>: paint byte; C08_PAINT=none: same observables, the stack left as the previous call left it */
 static uint32_t g_obs_out = 2166136261u, g_obs_pt = 2166136261u; static long g_obs_outn, g_obs_ptn;
